@@ -748,8 +748,10 @@ example (n : Nat) (ws out : List UInt64) (clo : Option Nat) (glob glob' : Glob) 
       [⟨.delay, 0, 5⟩, ⟨.get, 5, 1⟩, ⟨.set, 5, 1⟩, ⟨.get, 6, 1⟩, ⟨.set, 6, 1⟩] := by decide +kernel
   rw [this]; rfl
 
-/-- finding F3 as a failed proof obligation: with a stateful call in both arms of an `if` (the else arm pushes, the merge block
-pops unconditionally) `dsp` is rejected — and only `dsp`: the set without it is closed, the set with it is not -/
+/-- state inside `if` arms as a failed proof obligation: with a stateful call in both arms of an `if` a run visits the cell of ONE arm
+only (on the tree of finding F3 the else arm pushed and the merge block popped unconditionally; since /repo defc5f6 every arm owns its
+cell and brackets it itself), so no run performs `expectedTrace` of the published layout and `dsp` is rejected — and only `dsp`: the
+set without it is closed, the set with it is not -/
 example : okSet exStateInArms = [0, 1] ∧ okSetChecked exStateInArms [0, 1] = true ∧ okSetChecked exStateInArms [0, 1, 2] = false := by
   decide +kernel
 end Mimium.Mir
